@@ -54,6 +54,8 @@ type cfgSpec struct {
 	ErrsReader bool     `json:"errs_reader"`
 	IdGen      bool     `json:"idgen"`
 	WsIds      bool     `json:"wsids"`
+	Flood      string   `json:"flood,omitempty"` // outcome of every job without an entry in Outcome (flood episodes: err | panic)
+	Quiet      bool     `json:"quiet,omitempty"` // free-running flood episodes: only the quiescence line is logged
 	NoBind     bool     `json:"nobind"` // do not bind the queues up front (clients use Bind ops)
 	Consumers  int      `json:"consumers,omitempty"` // >1: that many workers consume one shared distributed adapter
 	Preload    []preSpec `json:"preload,omitempty"`  // entries already held by adapter 0 when the worker is bound
@@ -161,6 +163,9 @@ func jobID(key int) string {
 func (ep *episode) outcome(key int) string {
 	if o, ok := ep.prog.Outcome[fmt.Sprint(key)]; ok {
 		return o
+	}
+	if ep.prog.Cfg.Flood != "" {
+		return ep.prog.Cfg.Flood
 	}
 	return "ok"
 }
@@ -758,6 +763,16 @@ func (ep *episode) exec(o opSpec) []any {
 	case "WUF":
 		ep.w.WaitUntilFinished()
 		return []any{"res", "nil"}
+	case "Flood":
+		// n submissions in a row (keys job .. job+n-1), no handles kept: many jobs finishing (and failing) at the same time
+		hq := q()
+		if hq == nil {
+			return []any{"res", "noqueue"}
+		}
+		for k := o.Job; k < o.Job+o.N; k++ {
+			hq.add(k, 0, jobID(k))
+		}
+		return []any{"res", "nil"}
 	case "Bind":
 		hq := ep.bind(o.Kind)
 		ep.mu.Lock()
@@ -1062,6 +1077,7 @@ func runEpisode(prog *progSpec) (res epResult) {
 	g := newGate(gated)
 	g.coarse = prog.Sched.Coarse
 	wsIDs = prog.Cfg.WsIds
+	g.quiet = prog.Cfg.Quiet && !gated
 	if onDemand[prog.Sched.Label] {
 		g.demand = prog.Sched.Label
 	}
